@@ -166,6 +166,8 @@ func runC13(p *load.Program, r *core.Report) {
 	c13Sentinel(p, r, sendFn)
 	c13Worker(p, r)
 	c13Modulus(p, r, sendFn)
+	c13Envelope(p, r, sendFn)
+	c13Option(p, r)
 }
 
 // c13Sentinel: send and serve treat exactly 0 as "no order".
@@ -224,6 +226,132 @@ func c13Sentinel(p *load.Program, r *core.Report, sendFn *ssa.Function) {
 		idx, ok := constInt(ia.Index)
 		return ok && idx == 6
 	})
+}
+
+// c13Envelope: F5 — a compressed frame keeps the order byte of the frame it wraps: the receive-queue
+// selector written at index 6 of the envelope is a load of index 6 of the original buffer.
+func c13Envelope(p *load.Program, r *core.Report, sendFn *ssa.Function) {
+	rule := "C13.F5 envelope-keeps-selector"
+	r.Floor(rule, 1)
+	key := "C13.F5|" + fname(sendFn)
+	inst := "the compression envelope carries the receive-queue selector (byte 6) of the frame it wraps"
+	n, good := 0, 0
+	var badPos string
+	bufPar := paramOfType(sendFn, "lib.Buffer", 0)
+	eachInstr(sendFn, func(in ssa.Instruction) {
+		st, ok := in.(*ssa.Store)
+		if !ok {
+			return
+		}
+		ia, ok := st.Addr.(*ssa.IndexAddr)
+		if !ok {
+			return
+		}
+		if idx, okc := constInt(ia.Index); !okc || idx != 6 {
+			return
+		}
+		base, path, okp := fieldPath(ia.X)
+		if !okp || len(path) == 0 || path[len(path)-1] != "B" {
+			return
+		}
+		if bufPar != nil && (base == ssa.Value(bufPar) || isParamValue(base, bufPar)) {
+			return // a write into the original frame, not the envelope
+		}
+		n++
+		// value: load of buf.B[6] where buf is the original (parameter) buffer
+		if ld, ok := st.Val.(*ssa.UnOp); ok && ld.Op == token.MUL {
+			if ia2, ok := ld.X.(*ssa.IndexAddr); ok {
+				if idx2, okc := constInt(ia2.Index); okc && idx2 == 6 {
+					if b2, p2, ok2 := fieldPath(ia2.X); ok2 && len(p2) > 0 && p2[len(p2)-1] == "B" && bufPar != nil && (b2 == ssa.Value(bufPar) || isParamValue(b2, bufPar)) {
+						good++
+						return
+					}
+				}
+			}
+		}
+		badPos = p.Pos(st.Pos())
+	})
+	switch {
+	case n == 0:
+		r.Bad(rule, key, fname(sendFn), p.Pos(sendFn.Pos()), inst, "the envelope's order byte is never written: compressed frames are decoded by a round-robin queue and overtake each other")
+	case good != n:
+		r.Bad(rule, key, fname(sendFn), badPos, inst, "the envelope's byte 6 is not copied from byte 6 of the wrapped frame: compressed and uncompressed frames of one sender/receiver pair are decoded by different workers and overtake each other")
+	default:
+		r.OK(rule, key, fname(sendFn), p.Pos(sendFn.Pos()), inst, fmt.Sprintf("%d envelope write(s): zbuf.B[6] = buf.B[6]", n))
+	}
+}
+
+// c13Option: F6 — every message a process (or one of its meta processes) routes carries the
+// process's keep-order setting: the options literal built next to a Route{Send,Call}* call sets
+// KeepNetworkOrder from the keeporder field (sibling agreement over all such sites).
+func c13Option(p *load.Program, r *core.Report) {
+	rule := "C13.F6 keep-order-option-propagated"
+	r.Floor(rule, 16)
+	routes := map[string]bool{"RouteSendPID": true, "RouteSendProcessID": true, "RouteSendAlias": true, "RouteCallPID": true, "RouteCallProcessID": true, "RouteCallAlias": true, "RouteSendResponse": true, "RouteSendResponseError": true, "RouteSendEvent": true}
+	for _, f := range funcsOfPkgs(p, "node") {
+		rv := root(f).Signature.Recv()
+		if rv == nil {
+			continue
+		}
+		if n := namedOf(rv.Type()); n != "node.process" && n != "node.meta" {
+			continue
+		}
+		seq := map[string]int{}
+		eachInstr(f, func(in ssa.Instruction) {
+			cc := callCommon(in)
+			if cc == nil {
+				return
+			}
+			name := calleeName(cc)
+			if !routes[name] {
+				return
+			}
+			var opt ssa.Value
+			for _, a := range cc.Args {
+				if namedOf(a.Type()) == "gen.MessageOptions" {
+					opt = a
+				}
+			}
+			if opt == nil {
+				return
+			}
+			ld, ok := opt.(*ssa.UnOp)
+			if !ok {
+				return // passed through from the caller
+			}
+			cell, ok := canonCell(ld.X).(*ssa.Alloc)
+			if !ok {
+				return
+			}
+			seq[name]++
+			key := fmt.Sprintf("C13.F6|%s|%s#%d", fname(f), name, seq[name])
+			inst := "the routed message's options carry the sending process's keep-order setting"
+			set := false
+			for _, g := range family(root(f)) {
+				eachInstr(g, func(i2 ssa.Instruction) {
+					st, ok := i2.(*ssa.Store)
+					if !ok {
+						return
+					}
+					fa, ok := st.Addr.(*ssa.FieldAddr)
+					if !ok || canonCell(fa.X) != ssa.Value(cell) {
+						return
+					}
+					if _, fl := fieldOwner(fa); fl != "KeepNetworkOrder" {
+						return
+					}
+					if _, path, okp := fieldPath(st.Val); okp && len(path) > 0 && path[len(path)-1] == "keeporder" {
+						set = true
+					}
+				})
+			}
+			if set {
+				r.OK(rule, key, fname(f), p.Pos(in.Pos()), inst, "KeepNetworkOrder = keeporder")
+			} else {
+				r.Bad(rule, key, fname(f), p.Pos(in.Pos()), inst, "the options built for this call leave KeepNetworkOrder at false: the connection picks the link and the receive queue round-robin and two messages of one pair can overtake each other although order keeping is enabled")
+			}
+		})
+	}
 }
 
 // c13Worker: F3
